@@ -107,6 +107,9 @@ def collide(rng, pool, history, targets):
         return rng.choice([["bic", e[1], {}], ["bic", e[1], {"enforce_swift_compliance": True}],
                            ["bic_validate", e[1], True], ["bic_props", e[1]]]), tg
     if k in ("algo_validate", "algo_compute") and e[1] in pool["de_methods"]:
+        if rng.random() < 0.25:  # the same account through a *different* method object
+            other = rng.choice(sorted(pool["de_methods"]))
+            return [k, other, json.loads(json.dumps(e[2])), *e[3:]], other
         if rng.random() < 0.7:
             op, key, _ = gen.gen_de_algo(rng, pool, e[1])
         else:
@@ -173,9 +176,17 @@ def gen_history(index: int, vseed: int, pool: dict, tier: str) -> dict:
     targets: list = []
     faults: list = []
     producers: list[int] = []
+    burst_key = rng.choice(sorted(pool["de_methods"])) if rng.random() < 0.15 else None
+    if burst_key is not None:
+        n = min(MAX_LEN, max(n, 3 + rng.randrange(8)))
     for j in range(n):
         r = rng.random()
-        if history and r < p_collide:
+        if burst_key is not None and r < 0.85:
+            # burst on one method singleton: accept / reject / raising / special-remainder accounts back to back,
+            # through the algorithm object and through the IBAN API
+            g = gen.gen_de_iban if (burst_key in pool["de_ibans"] and rng.random() < 0.35) else gen.gen_de_algo
+            op, tg, _ = g(rng, pool, burst_key)
+        elif history and r < p_collide:
             op, tg = collide(rng, pool, history, targets)
         elif producers and r < p_collide + p_ref:
             op, tg = gen_ref_op(rng, producers, history, targets)
@@ -200,6 +211,7 @@ def gen_history(index: int, vseed: int, pool: dict, tier: str) -> dict:
         "property": PROP, "engine": core.ENGINE_VERSION, "verif_seed": vseed, "run_index": index,
         "run_seed": str(seed), "pythonhashseed": core.HASHSEED,
         "config": {"warm": warm, "mean_len": mean, "p_abort": p_abort, "p_ref": p_ref, "p_collide": p_collide,
+                   "burst": burst_key,
                    "tail_from": tail_from, "deep": deep},
         "history": history, "targets": targets, "faults": faults,
     }
